@@ -308,7 +308,8 @@ theorem mk?_of_valid_periodic (tol : K) (htol : 0 ≤ tol) :
   have hmax : max b.periodic (-1) = b.periodic := by omega
   unfold Basis.mk?
   simp only [hmax]
-  rw [if_neg (by omega), if_neg (by have := hv.size_ge; omega)]
+  rw [if_neg (by omega), if_neg (by have := hv.size_ge; omega),
+    if_neg (show ¬ (b.periodic ≥ 0 ∧ (b.knots.size : Int) < (b.order : Int) + b.periodic + 1) by omega)]
   have hbad : ¬ (b.periodic ≥ 0 ∧ (List.range ((b.order : Int) + b.periodic - 1).toNat).any (fun i =>
       let i : Int := i
       decide (|((fun (i : Int) => b.knots.getD (if i < 0 then (b.knots.size : Int) + i else i).toNat 0) (i+1)
